@@ -17,6 +17,7 @@ type frameSpec struct {
 	Fn   string
 	Dir  string // DirSrc, e.g. "d/x.go"
 	Line int
+	Arg  uint64 // 0: no argument; otherwise one scalar argument (invisible to the ordering)
 }
 
 type sigSpec struct {
@@ -37,7 +38,7 @@ func (s sigSpec) String() string {
 		if f.Main {
 			m = "/main"
 		}
-		out += fmt.Sprintf(" [%s%s %s %s:%d]", f.Loc, m, f.Fn, f.Dir, f.Line)
+		out += fmt.Sprintf(" [%s%s %s %s:%d arg=%d]", f.Loc, m, f.Fn, f.Dir, f.Line, f.Arg)
 	}
 	return out
 }
@@ -71,6 +72,9 @@ func goroutinesOf(s sigSpec, uniq int, firstID int) []*stack.Goroutine {
 			c.Line = f.Line
 			c.ImportPath = c.Func.ImportPath
 			c.Location = f.Loc
+			if f.Arg != 0 {
+				c.Args.Values = []stack.Arg{{Value: f.Arg}}
+			}
 			g.Stack.Calls = append(g.Stack.Calls, c)
 		}
 		out = append(out, g)
@@ -141,6 +145,15 @@ func c13Universe(size int) []sigSpec {
 		for _, state := range []string{"chan send", "select"} {
 			for _, line := range []int{9, 10} {
 				add(sigSpec{Frames: []frameSpec{{Loc: stack.Stdlib, Fn: "Fn", Dir: "d/x.go", Line: line}}, Locked: locked, State: state})
+			}
+		}
+	}
+	// same frame, different argument values (different buckets, equal under every ordering key
+	// except state/lock)
+	for _, arg := range []uint64{1, 2} {
+		for _, state := range []string{"chan send", "select"} {
+			for _, locked := range []bool{false, true} {
+				add(sigSpec{Frames: []frameSpec{{Loc: stack.GoMod, Fn: "Qq", Dir: "d/x.go", Line: 10, Arg: arg}}, Locked: locked, State: state})
 			}
 		}
 	}
@@ -303,9 +316,10 @@ var c13Triple = Check[c13TripleCase]{
 // ---- aggregated sets -------------------------------------------------------------------------
 
 type c13SetCase struct {
-	Size  int
-	Order []int // universe indexes in arrival order
-	First int   // position in Order of the bucket whose first member is flagged First; -1 none
+	Size        int
+	Order       []int // universe indexes in arrival order
+	First       int   // position in Order of the bucket holding the First goroutine; -1 none
+	FirstMember int   // which member of that bucket is the First goroutine
 }
 
 func c13SetOracle(c c13SetCase) error {
@@ -315,7 +329,7 @@ func c13SetOracle(c c13SetCase) error {
 	for i, k := range c.Order {
 		gs := goroutinesOf(u[k], k, 100*(i+1))
 		if i == c.First {
-			gs[0].First = true
+			gs[c.FirstMember%len(gs)].First = true
 		}
 		idOf[gs[0].ID] = k
 		s.Goroutines = append(s.Goroutines, gs...)
@@ -370,7 +384,7 @@ var c13Set = Check[c13SetCase]{
 			idx[i] = i
 		}
 		perm := rapid.Permutation(idx).Draw(t, "members")
-		c := c13SetCase{Size: size, Order: perm[:k], First: rapid.IntRange(-1, k-1).Draw(t, "first")}
+		c := c13SetCase{Size: size, Order: perm[:k], First: rapid.IntRange(-1, k-1).Draw(t, "first"), FirstMember: rapid.IntRange(0, 2).Draw(t, "firstMember")}
 		return c
 	},
 	Oracle: c13SetOracle,
